@@ -100,6 +100,9 @@ pub struct Cfg {
     pub start_connected: bool,
     /// actions executed when the world is created (not counted as depth)
     pub prelude: Vec<CAct>,
+    /// MQTT 5: receive maximum announced on every connection after the first one
+    #[serde(default)]
+    pub recv_max_next: Option<u16>,
 }
 
 impl Cfg {
@@ -117,6 +120,7 @@ impl Cfg {
             recv_max: None,
             start_connected: true,
             prelude: vec![],
+            recv_max_next: None,
         }
     }
     pub fn prop_static(&self) -> &'static str {
@@ -405,8 +409,10 @@ impl<P: Proto> ClientWorld<P> {
                 self.mon.set_partial(false);
             }
             CAct::Reconnect { sp } => {
+                // later connections may announce a different receive maximum (MQTT 5)
+                let rm = if self.mon.connections() > 0 && cfg.recv_max_next.is_some() { cfg.recv_max_next } else { cfg.recv_max };
                 self.offer_transport();
-                self.connack_plan = Some(Pk::ConnAck { sp: *sp, code: 0, recv_max: cfg.recv_max });
+                self.connack_plan = Some(Pk::ConnAck { sp: *sp, code: 0, recv_max: rm });
                 self.mon.last_was_error = false;
             }
             CAct::ReconnectRefused => {
